@@ -5,6 +5,7 @@ import (
 	"sync/atomic"
 
 	"github.com/csgura/fp"
+	"github.com/csgura/fp/internal/verifhook"
 )
 
 type CopyOnWriteMap[K, V any] struct {
@@ -15,9 +16,11 @@ type CopyOnWriteMap[K, V any] struct {
 var _ fp.MapBase[string, int] = &CopyOnWriteMap[string, int]{}
 
 func (r *CopyOnWriteMap[K, V]) load() fp.UnsafeGoMap[K, V] {
+	verifhook.Yield("cow.load")
 	m := r.value.Load()
 
 	if m == nil {
+		verifhook.Yield("cow.load.lock")
 		r.lock.Lock()
 		defer r.lock.Unlock()
 
@@ -32,6 +35,7 @@ func (r *CopyOnWriteMap[K, V]) load() fp.UnsafeGoMap[K, V] {
 
 func (r *CopyOnWriteMap[K, V]) copyOnWrite(f func(om fp.UnsafeGoMap[K, V]) fp.UnsafeGoMap[K, V]) fp.UnsafeGoMap[K, V] {
 
+	verifhook.Yield("cow.enter")
 	r.lock.Lock()
 	defer r.lock.Unlock()
 
@@ -41,6 +45,7 @@ func (r *CopyOnWriteMap[K, V]) copyOnWrite(f func(om fp.UnsafeGoMap[K, V]) fp.Un
 	}
 
 	nm := f(m.(fp.UnsafeGoMap[K, V]))
+	verifhook.Yield("cow.store")
 	r.value.Store(nm)
 	return nm
 }
